@@ -550,4 +550,60 @@ theorem exit_no_common_first {ord : GroupOrd} (hord : KeepsAll ord) {rs : List R
       exact absurd ⟨r, hr, e⟩ hA
     simp [this]
 
+/-! ## fuel -/
+
+theorem leftFactorLoop_fuel_mono {ord : GroupOrd} : ∀ (f : Nat) (rs rs' : List RuleN),
+    leftFactorLoop ord f rs = some rs' → ∀ f', f ≤ f' → leftFactorLoop ord f' rs = some rs'
+  | 0, _, _, h, _, _ => by simp [leftFactorLoop] at h
+  | f+1, rs, rs', h, f', hle => by
+    obtain ⟨g, rfl⟩ : ∃ g, f' = g + 1 := ⟨f' - 1, by omega⟩
+    rw [leftFactorLoop] at h ⊢
+    cases hfo : factorOut ord rs with
+    | none => rw [hfo] at h; cases h
+    | some p =>
+      obtain ⟨rs1, m⟩ := p
+      rw [hfo] at h
+      cases m with
+      | true => exact leftFactorLoop_fuel_mono f rs1 rs' h g (by omega)
+      | false => exact h
+
+theorem le_foldl_max (cands : List (List SymN)) : ∀ (m : Nat),
+    m ≤ cands.foldl (fun m c => max m c.length) m ∧
+      ∀ c ∈ cands, c.length ≤ cands.foldl (fun m c => max m c.length) m := by
+  induction cands with
+  | nil => intro m; exact ⟨Nat.le_refl _, fun c hc => nomatch hc⟩
+  | cons a cands ih =>
+    intro m
+    simp only [List.foldl_cons]
+    obtain ⟨h1, h2⟩ := ih (max m a.length)
+    refine ⟨by omega, ?_⟩
+    intro c hc
+    simp only [List.mem_cons] at hc
+    rcases hc with rfl | hc
+    · omega
+    · exact h2 c hc
+
+theorem findPrefixN_beyond {cands : List (List SymN)} {n : Nat} (h : maxLen cands < n) :
+    findPrefixN cands n = [] := by
+  have : prefixesOfLen cands n = [] := by
+    simp only [prefixesOfLen, List.filterMap_eq_nil_iff]
+    intro c hc
+    have := (le_foldl_max cands 0).2 c hc
+    simp only [maxLen] at h
+    split
+    · omega
+    · rfl
+  simp [findPrefixN, this]
+
+/-- any fuel above the longest candidate's length gives the same result: the `[]` of exhausted
+    fuel is never what decides the outcome of `findPrefix` -/
+theorem findLongestPrefix_fuel (cands : List (List SymN)) : ∀ (f n : Nat), maxLen cands < n + f →
+    findLongestPrefix cands f n = findLongestPrefix cands (f + 1) n
+  | 0, n, h => by
+    simp [findLongestPrefix, findPrefixN_beyond (cands := cands) (n := n) (by omega),
+      findPrefixN_beyond (cands := cands) (n := n + 1) (by omega)]
+  | f+1, n, h => by
+    rw [findLongestPrefix, findLongestPrefix]
+    rw [findLongestPrefix_fuel cands f (n + 2) (by omega)]
+
 end ParolModel
